@@ -1,7 +1,7 @@
 (* C12 - tracks are independent: default channels of created tracks, TrackSync, and the frame /
    independence of the track-local arms of RunCore.step_song. *)
-From Sakura.Model Require Import Base Cursor Length Event Song Token LoopMachine LexCore RunCore.
-From Sakura.Proofs Require Import BlockP.
+From Sakura.Model Require Import Base Cursor Length Event Song Token LoopMachine LexCore RunCore RunRsv.
+From Sakura.Proofs Require Import ExtP BlockP.
 Open Scope Z_scope.
 
 Notation dtrk := (track_new 0 0).
@@ -141,7 +141,10 @@ Definition track_local (t : tok) : bool :=
   | TNote _ _ _ _ _ _ _ _ _ | TNoteN _ _ _ _ _ _ | TRest _ _ | TLength _
   | TOctave _ | TOctaveRel _ | TOctaveOnce _ | TVelocity _ _ | TVelocityRel _
   | TQLen _ | TQLenRel _ | TTiming _ | TChannel _ | TTrackKey _ | TVoice _
-  | THarmonyBegin | THarmonyEnd _ _ _ => true
+  | THarmonyBegin | THarmonyEnd _ _ _
+  | TCC _ _ | TPitchBend _ _ | TRpnCmd _ _ _ _               (* controller / bend events on the current track *)
+  | TRandom _ _ | TOnNote _ _ _ | TVOnTime _ | TCCOnTime _ _ | TCCOnNote _ _ | TCCOnNoteWave _ _ | TCCFreq _
+  | TPBOnTime _ _ | TDecresc _ _ _ => true                   (* reservations of the current track *)
   | _ => false
   end.
 
@@ -167,10 +170,16 @@ Lemma pj_he_oo s v : s_harmony_events (s_set_octave_once s v) = s_harmony_events
 Lemma pj_oo_upd_cur s f : s_octave_once (upd_cur s f) = s_octave_once s. Proof. reflexivity. Qed.
 Lemma pj_oo_harm s a b c : s_octave_once (s_set_harmony s a b c) = s_octave_once s. Proof. reflexivity. Qed.
 Lemma pj_oo_oo s v : s_octave_once (s_set_octave_once s v) = v. Proof. reflexivity. Qed.
-Ltac pj := repeat rewrite ?pj_tracks_upd_cur, ?pj_tracks_harm, ?pj_tracks_oo, ?pj_tracks_set, ?pj_cur_upd_cur, ?pj_cur_harm,
+Lemma pj_tracks_seed s v : s_tracks (s_set_rand_seed s v) = s_tracks s. Proof. reflexivity. Qed.
+Lemma pj_cur_seed s v : s_cur (s_set_rand_seed s v) = s_cur s. Proof. reflexivity. Qed.
+Lemma pj_tb_seed s v : s_timebase (s_set_rand_seed s v) = s_timebase s. Proof. reflexivity. Qed.
+Lemma pj_hf_seed s v : s_harmony_flag (s_set_rand_seed s v) = s_harmony_flag s. Proof. reflexivity. Qed.
+Lemma pj_he_seed s v : s_harmony_events (s_set_rand_seed s v) = s_harmony_events s. Proof. reflexivity. Qed.
+Lemma pj_oo_seed s v : s_octave_once (s_set_rand_seed s v) = s_octave_once s. Proof. reflexivity. Qed.
+Ltac pj := repeat rewrite ?pj_tracks_seed, ?pj_cur_seed, ?pj_tb_seed, ?pj_hf_seed, ?pj_he_seed, ?pj_oo_seed, ?pj_tracks_upd_cur, ?pj_tracks_harm, ?pj_tracks_oo, ?pj_tracks_set, ?pj_cur_upd_cur, ?pj_cur_harm,
              ?pj_cur_oo, ?pj_cur_set, ?pj_tb_upd_cur, ?pj_tb_harm, ?pj_tb_oo, ?pj_tb_set, ?pj_hf_upd_cur, ?pj_hf_harm, ?pj_hf_oo,
              ?pj_he_upd_cur, ?pj_he_harm, ?pj_he_oo, ?pj_oo_upd_cur, ?pj_oo_harm, ?pj_oo_oo.
-Ltac pj_in H := repeat rewrite ?pj_tracks_upd_cur, ?pj_tracks_harm, ?pj_tracks_oo, ?pj_tracks_set, ?pj_cur_upd_cur, ?pj_cur_harm,
+Ltac pj_in H := repeat rewrite ?pj_tracks_seed, ?pj_cur_seed, ?pj_tb_seed, ?pj_tracks_upd_cur, ?pj_tracks_harm, ?pj_tracks_oo, ?pj_tracks_set, ?pj_cur_upd_cur, ?pj_cur_harm,
              ?pj_cur_oo, ?pj_cur_set, ?pj_tb_upd_cur, ?pj_tb_harm, ?pj_tb_oo, ?pj_tb_set in H.
 
 (* only the current track may differ *)
@@ -192,12 +201,32 @@ Proof.
     try discriminate; intros E; injection E as <-; frame_leaf.
 Qed.
 
+Lemma frame_rel_trans a b c : frame_rel a b -> frame_rel b c -> frame_rel a c.
+Proof.
+  intros (A1 & A2 & A3 & A4) (B1 & B2 & B3 & B4). split; [congruence|]. split; [congruence|]. split; [|congruence].
+  intros i Hi. rewrite B3 by (rewrite A1; exact Hi). apply A3, Hi.
+Qed.
+Lemma frame_advance s F sd : frame_rel s (s_set_rand_seed (upd_cur s F) sd).
+Proof. frame_leaf. Qed.
+Lemma exec_note_frame s base flag natural len qlen vel timing oct slur s' :
+  exec_note s base flag natural len qlen vel timing oct slur = Ok s' -> frame_rel s s'.
+Proof.
+  unfold exec_note. destr_pairs. intros E. apply emit_note_frame in E. eapply frame_rel_trans; [apply frame_advance|exact E].
+Qed.
+Lemma exec_note_n_frame s no len qlen vel timing slur s' :
+  exec_note_n s no len qlen vel timing slur = Ok s' -> frame_rel s s'.
+Proof.
+  unfold exec_note_n. destr_pairs. intros E. apply emit_note_frame in E. eapply frame_rel_trans; [apply frame_advance|exact E].
+Qed.
+
 Theorem step_frame ec t s s' : track_local t = true -> step_song ec t s = Ok s' -> frame_rel s s'.
 Proof.
   destruct t; cbn [track_local]; try discriminate; intros _; cbn [step_song];
   first
   [ solve [intros E; injection E as <-; frame_leaf]
-  | solve [apply emit_note_frame]
+  | solve [unfold add_events; intros E; injection E as <-; frame_leaf]
+  | solve [apply exec_note_frame]
+  | solve [apply exec_note_n_frame]
   | solve [unfold exec_rest, exec_harmony_end, exec_voice;
            repeat match goal with
                   | |- context [if ?b then _ else _] => destruct b
@@ -261,14 +290,57 @@ Proof.
     rewrite Ht. destruct (negb _); indep_leaf Hs.
 Qed.
 
+(* the note arms first advance the reservations of the current track (and the seed): the same on any other tracks *)
+Lemma advance_indep s l2 F sd ev nl b slur : same_cur s l2 ->
+  emit_note (s_set_rand_seed (upd_cur (s_set_tracks s l2) F) sd) ev nl b slur
+  = lift s l2 (emit_note (s_set_rand_seed (upd_cur s F) sd) ev nl b slur).
+Proof.
+  intros Hs. set (s1 := s_set_rand_seed (upd_cur s F) sd). set (l2' := upd_nth (s_cur s) F l2).
+  change (s_set_rand_seed (upd_cur (s_set_tracks s l2) F) sd) with (s_set_tracks s1 l2').
+  assert (Hs1 : same_cur s1 l2').
+  { destruct Hs as [Hc [Hc2 Hn]]. split; [exact (cur_ok_upd_cur s F Hc)|]. split.
+    - unfold l2'. rewrite upd_nth_length. exact Hc2.
+    - change (cur_track s1) with (cur_track (upd_cur s F)). rewrite cur_track_upd_cur by exact Hc.
+      change (s_cur s1) with (s_cur s). unfold l2'. rewrite nth_upd_nth_eq by exact Hc2. rewrite Hn. reflexivity. }
+  rewrite (emit_note_indep s1 l2' ev nl b slur Hs1).
+  destruct (emit_note s1 ev nl b slur) as [s'| | |]; cbn [lift]; try reflexivity.
+  change (s_cur s1) with (s_cur s). unfold l2'. rewrite upd_nth_upd_nth. reflexivity.
+Qed.
+Lemma exec_note_indep s l2 base flag natural len qlen vel timing oct slur : same_cur s l2 ->
+  exec_note (s_set_tracks s l2) base flag natural len qlen vel timing oct slur
+  = lift s l2 (exec_note s base flag natural len qlen vel timing oct slur).
+Proof.
+  intros Hs. unfold exec_note, note_number, key_flag_at. rewrite (cur_track_swap s l2 Hs).
+  cbn [s_timebase s_use_key_shift s_key_flag s_key_shift s_rand_seed s_set_tracks].
+  destr_pairs. apply advance_indep. exact Hs.
+Qed.
+Lemma exec_note_n_indep s l2 no len qlen vel timing slur : same_cur s l2 ->
+  exec_note_n (s_set_tracks s l2) no len qlen vel timing slur = lift s l2 (exec_note_n s no len qlen vel timing slur).
+Proof.
+  intros Hs. unfold exec_note_n. rewrite (cur_track_swap s l2 Hs).
+  cbn [s_timebase s_key_shift s_rand_seed s_set_tracks].
+  destr_pairs. apply advance_indep. exact Hs.
+Qed.
+
+(* the ControlChange arm as ONE update of the current track *)
+Lemma cc_arm_eq s no (f : Z -> Z -> list event) : cur_ok s ->
+  add_events (upd_cur s (fun t => on_rt t (fun k => Reserve.remove_cc_on_note_wave k no))) f
+  = upd_cur s (fun t => tr_push_events (on_rt t (fun k => Reserve.remove_cc_on_note_wave k no))
+                                       (f (tr_timepos (cur_track s)) (tr_channel (cur_track s)))).
+Proof.
+  intros Hc. unfold add_events. rewrite cur_track_upd_cur by exact Hc. rewrite upd_cur_upd_cur. reflexivity.
+Qed.
+
 Theorem step_indep ec t s l2 : track_local t = true -> same_cur s l2 ->
   step_song ec t (s_set_tracks s l2) = lift s l2 (step_song ec t s).
 Proof.
   intros Ht Hs. pose proof (cur_track_swap s l2 Hs) as Hct.
   destruct t; cbn [track_local] in Ht; try discriminate; cbn [step_song];
   first
-  [ solve [unfold exec_note, exec_note_n, note_number, key_flag_at; rewrite ?Hct;
-           cbn [s_timebase s_use_key_shift s_key_flag s_key_shift s_set_tracks]; apply emit_note_indep; exact Hs]
+  [ solve [apply exec_note_indep; exact Hs]
+  | solve [apply exec_note_n_indep; exact Hs]
+  | solve [unfold add_events; rewrite ?Hct; indep_leaf Hs]
+  | solve [rewrite (cc_arm_eq s _ _ (proj1 Hs)), (cc_arm_eq (s_set_tracks s l2) _ _ (proj1 (proj2 Hs))); rewrite ?Hct; indep_leaf Hs]
   | solve [unfold exec_rest, exec_harmony_end, exec_voice; rewrite ?Hct;
            cbn [s_timebase s_octave_once s_v_add s_q_add s_harmony_flag s_harmony_time s_harmony_events s_set_tracks];
            repeat match goal with
@@ -285,12 +357,6 @@ Definition local_block (A : list tok) : Prop := Forall (fun t => track_local t =
 
 Lemma frame_rel_refl s : frame_rel s s.
 Proof. repeat split; reflexivity. Qed.
-
-Lemma frame_rel_trans a b c : frame_rel a b -> frame_rel b c -> frame_rel a c.
-Proof.
-  intros [A1 [A2 [A3 A4]]] [B1 [B2 [B3 B4]]]. split; [congruence|]. split; [congruence|]. split; [|congruence].
-  intros i Hi. rewrite B3 by congruence. apply A3. exact Hi.
-Qed.
 
 Lemma fold_steps_err ec A (r : res song) : (forall s, r <> Ok s) -> fold_steps ec A r = r.
 Proof.
@@ -446,6 +512,34 @@ Proof.
     (destruct (slur >=? 1); [hnorm_leaf F|]); destruct (negb _); hnorm_leaf F.
 Qed.
 
+Lemma advance_hnorm s F sd ev nl b slur : s_harmony_flag s = false ->
+  hnorm_res (emit_note (s_set_rand_seed (upd_cur (s_set_harmony s false 0 (s_harmony_events s)) F) sd) ev nl b slur)
+  = hnorm_res (emit_note (s_set_rand_seed (upd_cur s F) sd) ev nl b slur).
+Proof.
+  intros Hf. set (s1 := s_set_rand_seed (upd_cur s F) sd).
+  change (s_set_rand_seed (upd_cur (s_set_harmony s false 0 (s_harmony_events s)) F) sd)
+    with (s_set_harmony s1 false 0 (s_harmony_events s1)).
+  apply emit_note_hnorm. exact Hf.
+Qed.
+Lemma exec_note_hnorm s base flag natural len qlen vel timing oct slur : s_harmony_flag s = false ->
+  hnorm_res (exec_note (s_set_harmony s false 0 (s_harmony_events s)) base flag natural len qlen vel timing oct slur)
+  = hnorm_res (exec_note s base flag natural len qlen vel timing oct slur).
+Proof.
+  intros Hf. unfold exec_note, note_number, key_flag_at.
+  change (cur_track (s_set_harmony s false 0 (s_harmony_events s))) with (cur_track s).
+  cbn [s_timebase s_use_key_shift s_key_flag s_key_shift s_rand_seed s_set_harmony s_set_harmony_flag s_set_harmony_time s_set_harmony_events].
+  destr_pairs. apply advance_hnorm. exact Hf.
+Qed.
+Lemma exec_note_n_hnorm s no len qlen vel timing slur : s_harmony_flag s = false ->
+  hnorm_res (exec_note_n (s_set_harmony s false 0 (s_harmony_events s)) no len qlen vel timing slur)
+  = hnorm_res (exec_note_n s no len qlen vel timing slur).
+Proof.
+  intros Hf. unfold exec_note_n.
+  change (cur_track (s_set_harmony s false 0 (s_harmony_events s))) with (cur_track s).
+  cbn [s_timebase s_key_shift s_rand_seed s_set_harmony s_set_harmony_flag s_set_harmony_time s_set_harmony_events].
+  destr_pairs. apply advance_hnorm. exact Hf.
+Qed.
+
 Theorem step_hnorm ec t s : track_local t = true ->
   hnorm_res (step_song ec t (hnorm s)) = hnorm_res (step_song ec t s).
 Proof.
@@ -453,9 +547,9 @@ Proof.
   destruct t; cbn [track_local] in Ht; try discriminate; cbn [step_song];
   first
   [ solve [hnorm_leaf F]
-  | solve [unfold exec_note, exec_note_n, note_number, key_flag_at;
-           cbn [s_timebase s_use_key_shift s_key_flag s_key_shift s_tracks s_cur s_set_harmony cur_track];
-           apply emit_note_hnorm; exact F]
+  | solve [unfold add_events, cur_track; pj; hnorm_leaf F]
+  | solve [apply exec_note_hnorm; exact F]
+  | solve [apply exec_note_n_hnorm; exact F]
   | solve [unfold exec_rest, exec_harmony_end, exec_voice; pj; rewrite ?F; lazy beta iota;
            repeat match goal with
                   | |- context [if ?b then _ else _] => destruct b
